@@ -177,7 +177,8 @@ class Server:
                 cmd = ["strace", "-f", "-qq", "-o", self.strace, "-e",
                        "trace=open,openat,creat,unlink,unlinkat,rename,renameat,renameat2,mkdir,mkdirat,truncate,ftruncate,link,linkat,symlink,symlinkat,rmdir"] + cmd
             self.logf = open(self.log_path, "wb")
-            self.proc = subprocess.Popen(cmd, stdout=self.logf, stderr=subprocess.STDOUT, cwd=self.logdir)
+            # own process group: under strace the server is a grandchild, stop() must take it down too
+            self.proc = subprocess.Popen(cmd, stdout=self.logf, stderr=subprocess.STDOUT, cwd=self.logdir, start_new_session=True)
             if not wait:
                 return self
             if self.wait_ready():
@@ -221,12 +222,23 @@ class Server:
     def stop(self):
         if self.proc is not None:
             if self.proc.poll() is None:
-                self.proc.send_signal(signal.SIGKILL if not self.strace else signal.SIGTERM)
+                try:
+                    os.killpg(self.proc.pid, signal.SIGTERM if self.strace else signal.SIGKILL)
+                except OSError:
+                    pass
                 try:
                     self.proc.wait(timeout=3)
                 except subprocess.TimeoutExpired:
-                    self.proc.kill()
+                    try:
+                        os.killpg(self.proc.pid, signal.SIGKILL)
+                    except OSError:
+                        pass
                     self.proc.wait(timeout=3)
+            elif self.strace:
+                try:
+                    os.killpg(self.proc.pid, signal.SIGKILL)
+                except OSError:
+                    pass
             try:
                 self.logf.close()
             except Exception:
